@@ -498,6 +498,57 @@ def run_epochs(spec, res):
                                           sig={'aspect': 'epochs', 'tail': tn})
 
 
+def run_live_report(spec, res):
+    """The report is truthful at every moment, not only after a pass has
+    ended: while iterators of the wrapper are alive (suspended after k
+    examples, two of them interleaved, one closed), the count of the stage of
+    f is the number of times f has been called so far."""
+    ld = import_lazy_dataset()
+    pat = re.compile(r'MapDataset\(<function \S*\.fc at 0x[0-9a-f]+>\)[^\n]*?hits = (\d+)')
+    tails = {'map': lambda d: d, 'map.map': lambda d: d.map(lambda x: x),
+             'map.batch2': lambda d: d.batch(2), 'map.filter': lambda d: d.filter(lambda x: True),
+             'map.prefetch1': lambda d: d.prefetch(1, 1)}
+    for n in (1, 4, 7):
+        for tn, tail in tails.items():
+            calls = []
+
+            def fc(x, calls=calls):
+                calls.append(x)
+                return x
+            case = {'live_report': True, 'n': n, 'stages': tn}
+            res.case(('live', n, tn), True)
+            try:
+                p = ld.core.ProfilingDataset(tail(ld.new(list(range(n))).map(fc)))
+                readings = []
+
+                def read():
+                    m_ = pat.search(repr(p))
+                    readings.append((int(m_.group(1)) if m_ else None, len(calls)))
+                it1 = iter(p)
+                next(it1, None)
+                read()
+                it2 = iter(p)
+                next(it2, None)
+                next(it1, None)
+                read()
+                it1.close() if hasattr(it1, 'close') else None
+                read()
+                list(it2)
+                read()
+            except BaseException as e:
+                res.violation('profiling-changes-observation', case, exc_sig(e),
+                              sig={'aspect': 'live-report'})
+                continue
+            res.count('live_report_readings', len(readings))
+            # behind a buffering stage the function may have been called for
+            # examples that are still in flight; the count may then lag by them
+            slack = 3 if 'prefetch' in tn else 0
+            if any(r is None or not (c - slack <= r <= c) for r, c in readings):
+                res.violation('hit-count-wrong', case,
+                              {'(reported, calls so far) at four moments': readings},
+                              sig={'aspect': 'live-report', 'tail': tn})
+
+
 def shards(tier, seed):
     lim = LIMITS[tier]
     J = 14
@@ -517,6 +568,7 @@ def run_shard(spec, res):
     if spec['what'] == 'sched':
         return run_sched(spec, res)
     if spec['what'] == 'epochs':
+        run_live_report(spec, res)
         return run_epochs(spec, res)
     ld = import_lazy_dataset()
     if spec['what'] == 'exh':
